@@ -55,5 +55,5 @@ partial def loop (h : IO.FS.Stream) (st : St) : IO St := do
 
 def main : IO UInt32 := do
   let st ← loop (← IO.getStdin) {}
-  IO.println s!"SUMMARY lines={st.n} mismatches={st.bad} positive={st.pos} unknown={st.unk}"
+  IO.println s!"SUMMARY lines={st.n} mismatches={st.bad} positive={st.pos} unknown={st.unk} lenient={st.ex.lenient}"
   return (if st.bad == 0 && st.unk == 0 then 0 else 1)
